@@ -3,6 +3,7 @@ package props
 import (
 	"bytes"
 	"fmt"
+	"github.com/robfig/soy"
 	"os"
 	"runtime"
 	"strconv"
@@ -126,6 +127,12 @@ func runC09(c C09Case, rounds int, rec *recorder) error {
 		soyjs.Write(&buf, f, soyjs.Options{Messages: msgs})
 		jsWant = append(jsWant, buf.String())
 	}
+	sharedGlobals := toDataMap(c.Other.Prog.Globals)
+	if sharedGlobals == nil {
+		sharedGlobals = data.Map{}
+	}
+	sharedGlobals["zz.shared"] = data.String("s")
+	sharedDigest := deepDigest(sharedGlobals)
 	configs := [][2]int{{2, 2}, {4, 4}, {8, 16}, {16, 16}, {8, 2}, {3, 1}}
 	if !thorough() && os.Getenv("VERIF_REPLAY") == "" {
 		configs = configs[:3]
@@ -184,7 +191,21 @@ func runC09(c C09Case, rounds int, rec *recorder) error {
 							return
 						}
 					default:
-						compileBundle(onames, osrcs, c.Other.Prog.Globals)
+						if (gi+r)%2 == 0 {
+							compileBundle(onames, osrcs, c.Other.Prog.Globals)
+							break
+						}
+						// independent bundles that were given the same application-wide globals map, and
+						// one more global each
+						catch(func() {
+							b := soy.NewBundle()
+							for i := range onames {
+								b.AddTemplateString(onames[i], osrcs[i])
+							}
+							b.AddGlobalsMap(sharedGlobals)
+							b.AddGlobalsMap(data.Map{fmt.Sprintf("zz.extra%d", gi): data.Int(r)})
+							b.Compile()
+						})
 					}
 				}
 			}(gi)
@@ -197,6 +218,9 @@ func runC09(c C09Case, rounds int, rec *recorder) error {
 		}
 		if failure != nil {
 			return failure
+		}
+		if deepDigest(sharedGlobals) != sharedDigest {
+			return fmt.Errorf("the globals map given to several independent bundles was modified by their compilation (now %d entries)", len(sharedGlobals))
 		}
 	}
 	return nil
@@ -228,7 +252,7 @@ func TestC09(t *testing.T) {
 	}
 	seed, _ := strconv.Atoi(os.Getenv("VERIF_SEED"))
 	sh, _ := strconv.Atoi(shard())
-	nb := scale(4, 12)
+	nb := scale(6, 14)
 	rounds := scale(200, 1200)
 	genr := rapid.Custom(c09Gen)
 	for b := 0; b < nb; b++ {
